@@ -59,6 +59,32 @@ def run(prop, path):
             if out != r.get("observed"):
                 print("does not reproduce")
                 return 0
+        elif kind == "order":
+            strip = lambda e: {k: e.get(k) for k in ("ok", "err", "panic", "seq", "ovf")}
+            with Executor() as ex, Executor() as ex2:
+                fwd = [[ex.call(c) for c in cmds] for cmds in r["scripts"]]
+                bwd = {t: [ex2.call(c) for c in r["scripts"][t]] for t in reversed(range(len(r["scripts"])))}
+            diff = [(t, j) for t in range(len(fwd)) for j in range(len(fwd[t])) if strip(fwd[t][j]) != strip(bwd[t][j])]
+            if not diff:
+                print("does not reproduce: both orders give identical results")
+                return 0
+            print("reproduced: %d calls return different results in the two orders, first: script %d call %d" % (len(diff), *diff[0]))
+        elif kind == "par_stress":
+            strip = lambda e: {k: e.get(k) for k in ("ok", "err", "panic", "seq", "ovf")}
+            with Executor() as ex:
+                base = [[ex.call(c) for c in cmds] for cmds in r["threads"]]
+                out = ex.call({"op": "par", "threads": r["threads"], "reps": r["reps"]})
+            hit = None
+            for t, res in enumerate(out.get("ok", {}).get("results", [])):
+                n = len(r["threads"][t])
+                if any(strip(a) != strip(b) for a, b in zip(res[:n], base[t])) or (res and "diverged" in res[-1]):
+                    hit = (t, res[-1].get("diverged"))
+                    break
+            if hit is None:
+                print("does not reproduce in this run (the deviation is timing dependent; %d repetitions on %d threads all "
+                      "agreed with the sequential results)" % (r["reps"], len(r["threads"])))
+                return 0
+            print("reproduced: thread %d deviates from its sequential results: %s" % (hit[0], json.dumps(hit[1])[:400]))
         elif kind in ("par", "par_export"):
             print(json.dumps(r)[:2000])
             return 2
